@@ -3,7 +3,7 @@
 # Everything is built from files under /verif and $VERIF_REPO (default /repo); nothing is fetched.
 set -e
 cd "$(dirname "$0")"
-for t in gcc cmake ninja python3; do
+for t in gcc clang cmake ninja python3 objcopy; do
   command -v $t >/dev/null || { echo "setup: missing tool $t" >&2; exit 1; }
 done
 python3 - <<'PY'
